@@ -2,6 +2,7 @@ package main
 
 import (
 	"context"
+	"errors"
 	"fmt"
 	"reflect"
 	"strconv"
@@ -81,6 +82,7 @@ type stackOpts struct {
 	innerMTU int // for mem transports
 	outerMTU int // for frag/mbapp/quic
 	queueLen int
+	closeErr bool // the in-memory transport under the layer reports an error from Close (after closing)
 	skew     bool // node i of a layer with a configurable MTU gets outerMTU>>i: peers that disagree about the limit
 	lossy    bool // the in-memory link wipes and drops every fifth message (a tell transform that owns the message it is given)
 }
@@ -262,6 +264,37 @@ func buildUDP(o stackOpts, laddr string, name string) (*Stack, error) {
 	return mkStack(name, sw), nil
 }
 
+// errCloseSwarm: a lower layer whose Close does its work and then reports an error (a socket closed twice, a flush that failed).
+type errCloseSwarm[A p2p.Addr] struct{ p2p.Swarm[A] }
+
+func (s errCloseSwarm[A]) Close() error {
+	s.Swarm.Close()
+	return errors.New("lower layer: close reported an error")
+}
+
+func maybeCloseErr(o stackOpts, s p2p.Swarm[memAddr]) p2p.Swarm[memAddr] {
+	if o.closeErr {
+		return errCloseSwarm[memAddr]{s}
+	}
+	return s
+}
+
+func closeErrTag(o stackOpts) string {
+	if o.closeErr {
+		return ",close-error"
+	}
+	return ""
+}
+
+// closeErrStacks: layers over an in-memory transport whose Close reports an error (used by C12 only).
+func closeErrStacks() []stackFactory {
+	return []stackFactory{
+		{"frag(mem,close-error)", false, func(o stackOpts) (*Stack, error) { o.closeErr = true; return ok(buildFragMem(o)) }},
+		{"p2pke(mem,close-error)", false, func(o stackOpts) (*Stack, error) { o.closeErr = true; return ok(buildP2PKEMem(o)) }},
+		{"quic(mem,close-error)", false, func(o stackOpts) (*Stack, error) { o.closeErr = true; return buildQUICMem(o) }},
+	}
+}
+
 func buildFragMem(o stackOpts) *Stack {
 	o = o.withDefaults()
 	if o.innerMTU == 0 {
@@ -273,9 +306,9 @@ func buildFragMem(o stackOpts) *Stack {
 	realm := memswarm.NewRealm(memOpts(o)...)
 	sw := make([]p2p.Swarm[memAddr], o.n)
 	for i := range sw {
-		sw[i] = fragswarm.New[memAddr](realm.NewSwarm(), o.mtuOf(i))
+		sw[i] = fragswarm.New[memAddr](maybeCloseErr(o, realm.NewSwarm()), o.mtuOf(i))
 	}
-	st := mkStack(fmt.Sprintf("frag(mem,%d/%d%s)", o.innerMTU, o.outerMTU, o.skewTag()), sw)
+	st := mkStack(fmt.Sprintf("frag(mem,%d/%d%s%s)", o.innerMTU, o.outerMTU, o.skewTag(), closeErrTag(o)), sw)
 	st.InnerMTU = o.innerMTU
 	return st
 }
@@ -410,10 +443,10 @@ func buildP2PKEMem(o stackOpts) *Stack {
 	sw := make([]p2p.Swarm[A], o.n)
 	secs := make([]p2p.Secure[A, x509.PublicKey], o.n)
 	for i := range sw {
-		s := p2pkeswarm.New[memAddr](realm.NewSwarm(), keyN(100+i).Priv)
+		s := p2pkeswarm.New[memAddr](maybeCloseErr(o, realm.NewSwarm()), keyN(100+i).Priv)
 		sw[i], secs[i] = s, s
 	}
-	st := mkStack("p2pke(mem)", sw)
+	st := mkStack("p2pke(mem"+closeErrTag(o)+")", sw)
 	addSecure(st, secs)
 	return st
 }
@@ -479,13 +512,13 @@ func buildQUICMem(o stackOpts) (*Stack, error) {
 		if o.outerMTU > 0 {
 			opts = append(opts, quicswarm.WithMTU[memAddr](o.mtuOf(i)))
 		}
-		s, err := quicswarm.New[memAddr](realm.NewSwarm(), keyN(100+i).Priv, opts...)
+		s, err := quicswarm.New[memAddr](maybeCloseErr(o, realm.NewSwarm()), keyN(100+i).Priv, opts...)
 		if err != nil {
 			return nil, err
 		}
 		sw[i], secs[i] = s, s
 	}
-	st := mkStack("quic(mem)"+o.skewTag(), sw)
+	st := mkStack("quic(mem"+closeErrTag(o)+")"+o.skewTag(), sw)
 	addSecure(st, secs)
 	return st, nil
 }
